@@ -164,6 +164,7 @@ def run_single(seq, law):
     det.process_hcm_first(loads)
     # what a caller sees who asks between the passes (the assessment keeps a deep copy of the detector at this moment)
     import copy
+    len(rec.collective)                      # ... and reads the hystereses recorded so far
     snap = copy.deepcopy(det)
     det.between_passes = (np.asarray(det.strain_values_first_run, dtype=float).tolist(), np.asarray(det.strain_values_second_run, dtype=float).tolist(),
                           np.asarray(snap.strain_values_first_run, dtype=float).tolist(), np.asarray(snap.strain_values_second_run, dtype=float).tolist())
@@ -205,7 +206,12 @@ def run_multi(seq, ratios, kind, pidx, layout="asc"):
     nodes = [11 + 3 * i for i in range(len(ratios))]
     if layout == "nodes":
         nodes = nodes[-1:] + nodes[:-1]         # node ids neither ascending nor (for > 2 points) descending: 17, 11, 14
-    if layout == "sliced":
+    if layout == "node-major":
+        # rows stored node by node (all load steps of the first node, then the second, ...), e.g. pd.concat of per-node histories
+        parts = {node: pd.Series(r * seq, index=pd.RangeIndex(len(seq), name="load_step")) for node, r in zip(nodes, ratios)}
+        signal = pd.concat(parts, names=["node_id"]).swaplevel()
+        signal.index.names = ["load_step", "node_id"]
+    elif layout == "sliced":
         # the signal is a slice of a longer recording: its MultiIndex still carries the dropped load steps as unused level values
         long = np.concatenate([[777.0], seq[:1], [-555.0], seq[1:], [333.0]])
         df = pd.DataFrame({node: r * long for node, r in zip(nodes, ratios)})
@@ -316,7 +322,7 @@ def compare_mirror(seq, kind, pidx):
     return []
 
 
-BATCH_LAYOUTS = ("asc", "desc", "shuffled", "sliced", "nodes", "two-chunks")
+BATCH_LAYOUTS = ("asc", "desc", "shuffled", "sliced", "nodes", "two-chunks", "node-major")
 
 
 def compare_batch(seq, ratios, kind="binned-neuber", pidx=0, layout=None):
@@ -327,7 +333,7 @@ def compare_batch(seq, ratios, kind="binned-neuber", pidx=0, layout=None):
             out += compare_batch(seq, ratios, kind, pidx, lay)
         return out
     sfx = "" if layout == "asc" else "/node-ids-not-ascending" if layout == "nodes" else \
-        "/two-different-chunks" if layout == "two-chunks" else "/load_step-labels-" + layout
+        "/two-different-chunks" if layout == "two-chunks" else "/rows-stored-node-by-node" if layout == "node-major" else "/load_step-labels-" + layout
     try:
         cm = run_multi(seq, ratios, kind, pidx, layout)
     except Exception as e:  # noqa: BLE001
